@@ -36,7 +36,29 @@ impl LibToRef {
 fn files_for(cfg: &Config, t: usize, big: bool) -> Vec<(String, Vec<u8>)> {
     let lens = gen::length_ladder(cfg.sector(), big && cfg.shift <= 5);
     let names = names_for(lens.len());
-    lens.iter().enumerate().map(|(k, &l)| (names[k].clone(), gen::content(gen::TEXTURES[t], l, cfg.sector(), k as u64))).collect()
+    let mut v: Vec<(String, Vec<u8>)> = lens.iter().enumerate().map(|(k, &l)| (names[k].clone(), gen::content(gen::TEXTURES[t], l, cfg.sector(), k as u64))).collect();
+    // names with bytes >= 0x80: the published hash works on bytes and folds ASCII only
+    v.push(("Dir\\\u{dc}n\u{ef}-c\u{f6}d\u{e9} \u{b5}.txt".to_string(), gen::content(gen::TEXTURES[t], 37, cfg.sector(), 98)));
+    v.push(("\u{4e16}\u{754c}\\\u{1f600}.bin".to_string(), gen::content(gen::TEXTURES[t], cfg.sector() + 5, cfg.sector(), 97)));
+    if cfg.shift == 0 {
+        // compression break-even sweep: one sector of k incompressible bytes followed by zeros, for every k in
+        // a window around the point where method byte + payload is exactly as long as the plain sector
+        // (a unit whose stored size equals its plain size is read as raw by every implementation)
+        let s = cfg.sector();
+        for k in (s - 140)..=s {
+            let mut d = gen::content("incompressible", k, s, 7 + t as u64);
+            d.resize(s, 0);
+            v.push((format!("sweep\\k{k:04}.bin"), d.clone()));
+            if k % 4 == 0 {
+                // and as the middle sector of a three-sector file
+                let mut m = gen::content("period251", s, s, 1);
+                m.extend_from_slice(&d);
+                m.extend_from_slice(&gen::content("constant", 17, s, 2));
+                v.push((format!("sweep3\\k{k:04}.bin"), m));
+            }
+        }
+    }
+    v
 }
 impl Space for LibToRef {
     fn len(&self) -> u64 {
@@ -156,7 +178,7 @@ impl Space for RefToLib {
     fn describe(&self, i: u64) -> Value {
         let d = gen::mixed_radix(i, &self.radices);
         json!({"direction": "reference writes, library reads", "texture": gen::TEXTURES[d[0] as usize], "method": (["none","zlib","bzip2"][d[1] as usize]),
-               "crypto": CRYPTO_NAMES[d[2] as usize], "single_unit": d[3]==1, "listfile": d[4]==0, "hash_size": ([32,64][d[5] as usize]), "shift": self.shifts[d[6] as usize], "version": format!("V{}", d[7]+1)})
+               "crypto": CRYPTO_NAMES[d[2] as usize], "single_unit": d[3]==1, "listfile": d[4]==0, "hash_size": ([512,1024][d[5] as usize]), "shift": self.shifts[d[6] as usize], "version": format!("V{}", d[7]+1)})
     }
     fn run(&self, i: u64) -> CaseResult {
         let d = gen::mixed_radix(i, &self.radices);
@@ -171,7 +193,7 @@ impl Space for RefToLib {
             .iter()
             .map(|(n, data)| WFile { name: n.replace('/', "\\").into_bytes(), data: data.clone(), method, encrypt: d[2] > 0, fix_key: d[2] == 2, single_unit: d[3] == 1, raw_flags: 0, in_listfile: true })
             .collect();
-        let opt = WOptions { version: d[7] as u16, shift, hash_size: [32, 64][d[5] as usize], listfile: d[4] == 0, userdata_prefix: 0, deleted_slots: vec![] };
+        let opt = WOptions { version: d[7] as u16, shift, hash_size: [512, 1024][d[5] as usize], listfile: d[4] == 0, userdata_prefix: 0, deleted_slots: vec![] };
         let bytes = mpqref::write(&wf, &opt).expect("reference writer");
         // self-check of the reference (machinery sanity): it must read its own archive
         let p = mpqref::parse(&bytes).expect("reference parses its own archive");
